@@ -48,6 +48,13 @@ def jobs(tier):
                       prog1=prog((K_LOOKUP, 1), (K_WALKALL, 0)), final_destroy=1, **base))
     # destroy after concurrent activity (auto-resize table: teardown goes through the worker)
     J.append(conc("2,0,0,0", flags=1, hmap=1, ninit=3, init_keys=0x210, prog0=prog((K_ADD, 3)), prog1=prog((K_DELN, 0)), final_destroy=1))
+    # destroy while a lazy (count-driven) SHRINK is still pending on the worker: the emptiness walk of cds_lfht_destroy runs over bucket
+    # nodes whose arrays the worker is about to free
+    for init in (4, 8):
+        J.append(conc("1,0,0,0" if q else "2,0,0,0", flags=3, hmap=1, count_commit_order=0, init=init, ninit=3, init_keys=0x210, prog0=prog((K_DEL, 0)),
+                      final_destroy=1, settle_end=0))
+    J.append(conc("0,1,0,0" if q else "1,1,0,0", flags=3, hmap=1, count_commit_order=0, init=8, ninit=3, init_keys=0x210, prog0=prog((K_DEL, 0)),
+                  final_destroy=1, settle_end=0))
     for b, env in REAL:
         J.append(conc_real(b, env, "2,0,0,0", hmap=0, enum=3, nenum=2, nops=1, **base))
         J.append(conc_real(b, env, "1,0,0,0" if q else "2,0,0,0", hmap=2, init=4, prog0=prog((K_RESIZE, 1)), prog1=prog((K_DELN, 0)),
